@@ -88,7 +88,7 @@ def make_h(tier):
         p2 = ctx.pick("grandparent", ("none", "build", "tests") if quick else ("none", "build", "tests", "dist", "test_data"))
         pname = ctx.pick("project_dir_name", ("proj", "dist", "build", "node_modules", "my.egg-info")) if p2 == "none" else "proj"
         spelling = ctx.pick("spelling", ("absolute", "dot-from-inside", "relative-from-parent", "absolute-other-cwd", "file-list-absolute",
-                                         "dotdot-from-excluded-subdir", "dotdot-from-plain-subdir"))
+                                         "dotdot-from-excluded-subdir", "dotdot-from-plain-subdir", "absolute-from-cwd-with-own-ignore-file"))
         base = _baseline()
         tmp = tempfile.mkdtemp(prefix="c09-")
         cwd0 = os.getcwd()
@@ -105,6 +105,14 @@ def make_h(tier):
                 vs = Linter(project_root=pname).lint(pname)
             elif spelling == "absolute-other-cwd":
                 os.chdir("/")
+                vs = Linter(project_root=d).lint(str(d))
+            elif spelling == "absolute-from-cwd-with-own-ignore-file":
+                # an unrelated working directory that carries its own ignore list and configuration
+                other = Path(tmp) / "elsewhere"
+                other.mkdir()
+                (other / ".thailintignore").write_text("*.py\n*.ts\n*.js\n*.rs\napp/\ntop_level.py\n")
+                (other / ".thailint.yaml").write_text("nesting:\n  enabled: false\nmagic-numbers:\n  enabled: false\n")
+                os.chdir(other)
                 vs = Linter(project_root=d).lint(str(d))
             elif spelling.startswith("dotdot"):
                 sub = d / ("build" if "excluded" in spelling else "docs")
@@ -151,6 +159,6 @@ def obligations(tier):
            functions=["Linter.__init__/lint", "Orchestrator.lint_directory/lint_files/lint_file", "_is_hardcoded_excluded", "IgnoreDirectiveParser.is_ignored",
                       "every rule's path-based exemptions (test-file detection, default ignore lists, is_ignored_path, DRY ignore_patterns)"],
            bounds="forked (real trees, nothing symbolic): parent directory name from the vocabulary derived from _HARDCODED_EXCLUDE_DIRS plus the test/ignore markers used by the linters; "
-                  "optional grandparent; 5 target spellings / working directories",
+                  "optional grandparent; 8 target spellings / working directories (one of them an unrelated directory with its own .thailintignore and .thailint.yaml)",
            timeout=900 if tier == "quick" else 3000, workers=14, must_cover=("same",)),
     ]
